@@ -313,6 +313,12 @@ class workq:
             self._waiters.append((channels, ev))
             try:
                 j = ev.get()
+            except BaseException:
+                # killed (client disconnected) while waiting: a job that was
+                # already handed over to us must go back to the queue
+                if ev.ready():
+                    self.pushjob(ev.get())
+                raise
             finally:
                 self._waiters.remove((channels, ev))
 
